@@ -176,7 +176,22 @@ def run(c: Check, prop: str):
     log(f"  {prop} pooling plans: {cases} plans run to the end ({steps} steps, {events} pick-up/drop-off events), {len(seen)} violation signatures")
 
 
+def replay_c17(body) -> int:
+    rp = body["replay"]
+    bad, st = run_interrupted(tuple(tuple(x) for x in rp["plan"]), rp["k"], rp["variant"])
+    print(st)
+    for clause, msg in bad:
+        print(clause, "::", msg)
+    if bad:
+        print(f"VIOLATION property=C17 replay={body.get('_path')}")
+        return 1
+    print("not reproduced on this tree")
+    return 0
+
+
 def replay(body) -> int:
+    if body["replay"].get("prop") == "C17":
+        return replay_c17(body)
     rp = body["replay"]
     bad, st = run_plan(tuple(tuple(p) for p in rp["plan"]), rp["start"], rp["party"])
     want = body["signature"][0]
@@ -187,3 +202,78 @@ def replay(body) -> int:
         return 1
     print("not reproduced on this tree")
     return 0
+
+
+# ------------------------------------------------------------------------------------------------ C17: interrupted plans
+
+
+def run_interrupted(plan, k: int, variant: str):
+    """enter the plan, travel k steps, (variant 'removed': the request the vehicle is heading for leaves the simulation,) then stop
+    the vehicle with an IdleInstruction; afterwards no waiting request may record a vehicle that is not travelling to it"""
+    from nrel.hive.model.vehicle.trip_phase import TripPhase
+    from nrel.hive.state.entity_state import entity_state_ops
+    from nrel.hive.state.simulation_state import simulation_state_ops
+    from nrel.hive.state.vehicle_state.dispatch_pooling_trip import DispatchPoolingTrip
+
+    n = len(plan) // 2
+    w, sim = _world(n, "A", 1)
+    env, rn = w.env, w.rn
+    v = sim.vehicles["v0"]
+    ph = {"P": TripPhase.PICKUP, "D": TripPhase.DROPOFF}
+    tp = tuple((rid, ph[x]) for rid, x in plan)
+    first = sim.requests[plan[0][0]]
+    nxt = DispatchPoolingTrip.build("v0", tp, rn.route(v.position, first.position))
+    err, s1 = entity_state_ops.transition_previous_to_next(sim, env, v.vehicle_state, nxt)
+    if err is not None or s1 is None:
+        return [("plan_refused", f"a valid plan was refused: {err}")], {"entered": False, "recorded": 0}
+    sim = s1
+    recorded = sum(1 for r in sim.requests.values() if r.dispatched_vehicle == "v0")
+    bad = []
+    if recorded != n:
+        bad.append(("fresh_dispatch_not_on_record", f"after entering the plan {recorded} of its {n} requests record the vehicle"))
+    for _ in range(k):
+        if sim.vehicles["v0"].vehicle_state.__class__.__name__ != "DispatchPoolingTrip":
+            break
+        sim, _ = w.step(sim, ())
+    still_dispatch = sim.vehicles["v0"].vehicle_state.__class__.__name__ == "DispatchPoolingTrip"
+    if variant == "removed" and still_dispatch and plan[0][0] in sim.requests:
+        sim = simulation_state_ops.remove_request_safe(sim, plan[0][0]).unwrap()
+    sim, _ = w.step(sim, (("I", "Idle", "v0"),))
+    v = sim.vehicles["v0"]
+    vs = v.vehicle_state
+    heading = set()
+    if vs.__class__.__name__ in ("DispatchPoolingTrip", "ServicingPoolingTrip"):
+        heading = {rid for rid, _ in vs.trip_plan}
+    elif vs.__class__.__name__ == "DispatchTrip":
+        heading = {vs.request_id}
+    for rid, r in sorted(sim.requests.items()):
+        if r.dispatched_vehicle == "v0" and rid not in heading:
+            bad.append(("stale_record", f"{rid} records v0, which is {vs.__class__.__name__} after being stopped"))
+    return bad, {"entered": True, "recorded": recorded, "stopped_while_dispatching": still_dispatch}
+
+
+def run_c17(c: Check):
+    cases = entered = stopped = 0
+    seen = set()
+    for n in (2, 3):
+        for plan in plans(n):
+            for k in (0, 1):
+                for variant in ("stopped", "removed"):
+                    bad, st = run_interrupted(plan, k, variant)
+                    cases += 1
+                    entered += 1 if st.get("entered") else 0
+                    stopped += 1 if st.get("stopped_while_dispatching") else 0
+                    for clause, msg in bad:
+                        sig = (clause, "pooling_plan", variant)
+                        if sig in seen:
+                            continue
+                        seen.add(sig)
+                        c.add(Finding("C17", sig, f"pooling plan {['%s:%s' % p for p in plan]} entered through the state API, {k} step(s) of travel, {'the request it was heading for removed, ' if variant == 'removed' else ''}then stopped by an IdleInstruction: {msg}",
+                                      {"engine": "enum_pooling", "plan": [list(p) for p in plan], "k": k, "variant": variant, "prop": "C17"}))
+    c.coverage["interrupted_pooling_plans"] = {"cases": cases, "entered": entered, "stopped_while_still_dispatching": stopped,
+                                               "rule": "every plan over 2..3 pooling requests (6 + 90) x {0, 1} steps of travel x {stopped, first request removed then stopped}"}
+    c.coverage["states"] = c.coverage.get("states", 0) + cases
+    c.coverage["transitions"] = c.coverage.get("transitions", 0) + cases
+    if not stopped:
+        c.vacuous.append("interrupted pooling plans: no vehicle was stopped while still dispatching")
+    log(f"  C17 interrupted pooling plans: {cases} cases ({stopped} stopped while dispatching), {len(seen)} violation signatures")
